@@ -110,10 +110,21 @@ def execute(case: dict) -> dict:
             e = dict(e)
             m = numpy.array(bits(e["idx"], e["h"], e["w"]), dtype=bool)
             e["m"] = rows(m)
+
+            def held():
+                """the same mask held in C order, in Fortran order (a transposed array), or as a strided view of a larger array"""
+                how = e["idx"] % 3
+                if how == 1:
+                    return numpy.asfortranarray(m)
+                if how == 2:
+                    big = numpy.zeros((m.shape[0], 2 * m.shape[1]), dtype=bool)
+                    big[:, ::2] = m
+                    return big[:, ::2]
+                return m.copy()
             if e["a"] == "Blur":
-                e["obs"] = outcome(lambda: rows(masking.blur_mask(m.copy(), size=e["size"])))
+                e["obs"] = outcome(lambda: rows(masking.blur_mask(held(), size=e["size"])))
             elif e["a"] == "Smear":
-                e["obs"] = outcome(lambda: rows(masking.smear_mask(m.copy(), list(e["axes"]))))
+                e["obs"] = outcome(lambda: rows(masking.smear_mask(held(), list(e["axes"]))))
             else:
                 def cm():
                     r = c_mask_from_centres(m.copy(), dims)
